@@ -246,6 +246,12 @@ func runC02(e *env, n int) {
 		c.nontriv = true
 		c.flush(e, "empty blob from an empty cache")
 	}
+	// one restart history per direction (writer mode x reader mode), in EVERY run
+	if len(e.cases) < n {
+		impl := []string{"go", "cgo"}[r.Intn(2)]
+		restartCase(e, "zstd", impl)
+		restartCase(e, "uncompressed", []string{"go", "cgo"}[r.Intn(2)])
+	}
 	// blobs larger than one 64 KiB decoder block (128 KiB, 128 KiB + 1, ~300 KiB; incompressible and
 	// compressible) through the paths that buffer a whole blob: BatchReadBlobs, GetTree on a Directory
 	// blob of that size, GetActionResult inlining — in EVERY run, on the zstd-storage fixtures
@@ -526,4 +532,170 @@ func inlineCaseOf(e *env, f *fixture, so, se, of *blob) {
 		}
 	}
 	c.flush(e, "ActionResult with stdout/stderr/output file in the CAS")
+}
+
+// ---- restarts under the other storage mode (writer mode x reader mode)
+
+// One cache directory: populated under [first] through the normal write paths, then served by a new
+// cache + servers under the other mode, more entries written there (mixed directory), and a second
+// restart back to [first].  After every (re)start every blob is read through every read path with
+// the exact-bytes oracle; the model sees the same history with FRestart between the phases.
+func restartCase(e *env, first, impl string) {
+	r := e.r
+	other := map[string]string{"zstd": "uncompressed", "uncompressed": "zstd"}[first]
+	f0 := newFixture(first, impl, bigLimit)
+	cur := f0
+	defer func() { cur.close() }()
+	c := &rcase{f: f0, nontriv: true}
+
+	var blobs []*blob
+	write := func(k int, sz int) {
+		var u *ucase
+		switch k % 4 {
+		case 0:
+			u = runHTTP(cur, r, false, "none", sz)
+		case 1:
+			u = runHTTP(cur, r, true, "none", sz)
+		case 2:
+			u = runBatch(cur, r, k%8 == 2, "none", sz)
+		default:
+			u = runBS(cur, r, k%8 == 3, "none", sz)
+		}
+		if u.got != cOK {
+			c.fail("C02 restart: upload of %d bytes refused: %s", sz, u.got)
+		}
+		c.ops = append(c.ops, u.ops...)
+		c.obs = append(c.obs, u.obs...)
+		blobs = append(blobs, byHash[u.decl.hash])
+	}
+	// a Directory tree (one child blob larger than a decoder block) and an ActionResult whose
+	// stdout / stderr / output file live in the CAS
+	mkDir := func(nfiles int, kids ...*blob) (*pb.Directory, *blob) {
+		d := &pb.Directory{}
+		for k := 0; k < nfiles; k++ {
+			d.Files = append(d.Files, &pb.FileNode{Name: fmt.Sprintf("f%d-%d", k, r.Intn(1<<30)), Digest: &pb.Digest{Hash: genHash(r), SizeBytes: int64(1 + r.Intn(99))}})
+		}
+		for k, kb := range kids {
+			d.Directories = append(d.Directories, &pb.DirectoryNode{Name: fmt.Sprintf("d%d", k), Digest: &pb.Digest{Hash: kb.hash, SizeBytes: int64(len(kb.data))}})
+		}
+		data, err := proto.Marshal(d)
+		if err != nil {
+			panic(err)
+		}
+		return d, regBlob(data)
+	}
+	put := func(b *blob) {
+		sts, st := cur.batchUpdate([]buEntry{{b.hash, int64(len(b.data)), 0, b.data}})
+		if st != cOK || sts[0] != cOK {
+			panic("restart: upload failed")
+		}
+		bd, _ := describe(b.data, false, b.hash, false)
+		c.ops = append(c.ops, fmt.Sprintf("FBatchUpdate [mkBU false %s %s CIdentity %s %s]", CS(b.hash), CZ(int64(len(b.data))), bd.coq(), CS(nextRnd())))
+		c.obs = append(c.obs, "OSts SOk [SOk]")
+	}
+	for k, sz := range []int{1, 4095, 4096, 4097, 70000 + r.Intn(999), 1<<20 + 13 + r.Intn(50)} {
+		write(k+r.Intn(8)*4, sz)
+	}
+	dBig, bBig := mkDir(900)
+	dSmall, bSmall := mkDir(2)
+	dRoot, bRoot := mkDir(3, bBig, bSmall)
+	wantDirs := []*pb.Directory{dRoot, dBig, dSmall}
+	for _, b := range []*blob{bBig, bSmall, bRoot} {
+		put(b)
+	}
+	table := fmt.Sprintf("[(%s, [%s; %s]); (%s, []); (%s, [])]", CZ(bRoot.cid), dg{bBig.hash, int64(len(bBig.data))}.coq(), dg{bSmall.hash, int64(len(bSmall.data))}.coq(), CZ(bBig.cid), CZ(bSmall.cid))
+	ahash := genHash(r)
+	so, se, of := blobs[4], blobs[2], blobs[5]
+	{
+		ar := &pb.ActionResult{
+			StdoutDigest: &pb.Digest{Hash: so.hash, SizeBytes: int64(len(so.data))},
+			StderrDigest: &pb.Digest{Hash: se.hash, SizeBytes: int64(len(se.data))},
+			OutputFiles:  []*pb.OutputFile{{Path: "out/f0", Digest: &pb.Digest{Hash: of.hash, SizeBytes: int64(len(of.data))}}},
+		}
+		ctx, cancel := ctx5()
+		_, err := cur.ac.UpdateActionResult(ctx, &pb.UpdateActionResultRequest{ActionDigest: &pb.Digest{Hash: ahash, SizeBytes: 9}, ActionResult: ar})
+		cancel()
+		if err != nil {
+			panic(err)
+		}
+	}
+
+	readAll := func(phase string, full bool) {
+		c.f = cur
+		c.texts = append(c.texts, "== "+phase+" ("+cur.mode+")")
+		for i, b := range blobs {
+			n := int64(len(b.data))
+			c.batchRead(e, r, b, false, true)
+			c.batchRead(e, r, b, true, true)
+			c.httpGet(e, b, (i+len(c.ops))%2 == 0, true)
+			offs := []int64{0, 1, n / 2, n - 1, n}
+			if n > 1<<20 {
+				offs = []int64{0, 1, 500000 + int64(r.Intn(1000)), 1 << 20, 1<<20 - 1, n - 1, n}
+			}
+			if !full {
+				offs = []int64{offs[r.Intn(len(offs)-1)]}
+			} else {
+				c.httpGet(e, b, (i+len(c.ops))%2 == 1, true)
+				c.head(e, b, true)
+			}
+			for _, off := range offs {
+				if off < 0 {
+					continue
+				}
+				c.bsRead(e, b, false, off, 0, true)
+				c.bsRead(e, b, true, off, 0, true)
+			}
+		}
+		// GetTree
+		dirs, st := cur.getTree(dg{bRoot.hash, int64(len(bRoot.data))})
+		var cids []string
+		for _, d := range dirs {
+			data, _ := proto.Marshal(d)
+			if b, ok := byHash[sha(data)]; ok {
+				cids = append(cids, CZ(b.cid))
+			} else {
+				cids = append(cids, "(-1)")
+			}
+		}
+		c.ops = append(c.ops, fmt.Sprintf("FGetTree %s %s", dg{bRoot.hash, int64(len(bRoot.data))}.coq(), table))
+		c.obs = append(c.obs, fmt.Sprintf("OTree %s %s", st.coq(), CList(cids)))
+		e.rep.Evaluations++
+		e.rep.Count("c02.restart.GetTree." + string(st))
+		ok := st == cOK && len(dirs) == len(wantDirs)
+		for i := 0; ok && i < len(dirs); i++ {
+			ok = proto.Equal(dirs[i], wantDirs[i])
+		}
+		if !ok {
+			c.fail("C02 GetTree after %s: %s with %d directories, want the %d stored messages", phase, st, len(dirs), len(wantDirs))
+		}
+		// GetActionResult with everything inlined
+		got, ast := cur.getAR(ahash, 9, true, true, []string{"out/f0"})
+		e.rep.Evaluations++
+		e.rep.Count("c02.restart.GetActionResult." + string(ast))
+		if ast != cOK || !bytes.Equal(got.GetStdoutRaw(), so.data) || !bytes.Equal(got.GetStderrRaw(), se.data) ||
+			len(got.GetOutputFiles()) != 1 || !bytes.Equal(got.GetOutputFiles()[0].GetContents(), of.data) {
+			c.fail("C02 GetActionResult after %s: %s, inlined stdout/stderr/output file differ from the stored blobs", phase, ast)
+		}
+		c.texts = append(c.texts, fmt.Sprintf("GetTree -> %s %d dirs; GetActionResult(inline all) -> %s", st, len(dirs), ast))
+	}
+	restart := func(mode string) {
+		cur.shutdown()
+		cur = newFixtureAt(cur.dir, mode, impl, bigLimit)
+		c.ops = append(c.ops, "FRestart "+CB(mode == "zstd"))
+		c.obs = append(c.obs, "OSt SOk")
+		e.rep.Count("c02.restart." + first + "->" + mode)
+	}
+
+	readAll("written under "+first, false)
+	restart(other)
+	readAll("restarted under "+other, true)
+	// a mixed directory: more entries written under the other mode
+	for k, sz := range []int{100, 4096, 66000 + r.Intn(999)} {
+		write(k+r.Intn(8)*4, sz)
+	}
+	readAll("mixed directory under "+other, false)
+	restart(first)
+	readAll("restarted back under "+first, false)
+	c.f = f0
+	c.flush(e, fmt.Sprintf("restart %s -> %s -> %s (%s)", first, other, first, impl))
 }
